@@ -675,6 +675,22 @@ def _max_abs(r):
     return m
 
 
+def _sum_abs(r):
+    """Validate.sumAbs of the model: magnitudes of all ints / truncated finite floats, dict keys included"""
+    t = r['t']
+    if t == 'i':
+        return abs(R.build(r))
+    if t == 'f':
+        return abs(int(R.build(r))) if r['hex'] not in ('nan', 'inf', '-inf') else 0
+    if t in ('l', 'u'):
+        return sum(_sum_abs(x) for x in r['v'])
+    if t == 'd':
+        return sum(_sum_abs(k) + _sum_abs(v) for k, v in r['v'])
+    if t == 'x' and isinstance(r.get('v'), list):
+        return sum(_sum_abs(x) if isinstance(x, dict) else sum(_sum_abs(y) for y in x) for x in r['v'])
+    return 0
+
+
 def _has_x(r, kinds):
     return any(k in json.dumps(r) for k in kinds)
 
@@ -691,13 +707,10 @@ MATCHERS = {
     'cyclic_or_deep': lambda case, obs, f: (
         obs.get('kind') == 'internal:RecursionError' and
         (_has_x(case['md'], ['cyclic-list', 'cyclic-dict', '"deep"']) or R_depth(case['md']) > 100)),
-    # D07h: piece-count check done in float arithmetic: numbers >= 2^53 in the metainfo
-    'float_piece_count': lambda case, obs, f: (
-        _max_abs(R.dget(case['md'], 'info') or R.N()) >= 2 ** 53 and
-        (obs.get('kind') == 'internal:OverflowError' or obs.get('unsound') == 'count')),
-    # D07j: repr() of an offending value with an int of >= 4300 digits inside assert_type's message
+    # D07j: an int of more than 4300 digits formatted into a MetainfoError message (assert_type's repr() of
+    # the offending value, validate()'s 'Expected N pieces')
     'huge_int_in_message': lambda case, obs, f: (
-        obs.get('kind') == 'internal:ValueError' and obs.get('op') != 'magnet-tail' and _max_abs(case['md']) >= 10 ** 4299),
+        obs.get('kind') == 'internal:ValueError' and obs.get('op') != 'magnet-tail' and _sum_abs(case['md']) >= 10 ** 4300),
     # D07i: magnet() reads announce-list / url-list back through getters that raise URLError/TypeError
     'magnet_tail': lambda case, obs, f: (
         obs.get('op') == 'magnet-tail' and obs.get('kind') in ('internal:URLError', 'internal:TypeError',
@@ -812,6 +825,8 @@ def evaluate(ctx, drv, cases):
 
         # ---- model vs specification (proved; a failure is a machinery error) ---------------------
         thm = rep['hypThm']
+        if not rep['wf']:
+            ctx.machinery_error('in-domain case violates the dict invariant Codec.wf (harness conversion problem)', case)
         for name in ('validate', 'dump', 'info', 'magnet', 'ready'):
             m = rep[name]
             if 'err' in m and m['err'] == 'value':
@@ -876,8 +891,9 @@ def run(ctx, drv):
     ctx.notes['assumptions'] = [
         'URL well-formedness is a parameter of model and specification; the harness computes it with urllib '
         '(urlparse succeeds, .port readable, scheme and netloc non-empty), independently of torf.utils.is_url',
-        'math.ceil(size / piece length) is modelled by exact integer division; the correspondence is claimed only '
-        'where the sum of all magnitudes in the metainfo is < 2^53 (hyp); beyond, implementation vs specification only',
+        'the expected piece count is exact integer arithmetic in code and model (numbers of any size); the '
+        'int->str limit of 4300 digits in error messages is modelled (finding D07j)',
+        'Python dicts have pairwise distinct keys: every in-domain case satisfies Codec.wf (checked, machinery error otherwise)',
         'nesting depth <= 100 (CPython recursion limit is not modelled; deeper/cyclic values: finding D07g)',
         'values outside PyVal (set, generator, bytearray, range, custom mappings, lone surrogates, cyclic) are '
         'checked on the implementation against the specification only',
